@@ -9,7 +9,8 @@ Used in two ways
     through ctx.import_catii().
 
 payload = {"suites": [suite, ...], "skip": [call numbers not to execute], "progress": path or null}
-suite kinds (every array handed to the code is a fresh/pristine C-contiguous 1-D numpy uint32 array):
+suite kinds (every array handed to the code is a fresh/pristine C-contiguous 1-D numpy uint32 array, except in
+  bin_explicit suites carrying "form": strided | column | readonly - same values, another memory layout):
   {"kind": "bin_rows", "U": [..], "ops": [..], "none": bool, "copy": bool, "stride": k}
         every ordered pair of subsets of U (bit mask m: bit i selects U[i]); ops 0,1,2 are the
         kernels set_intersect/union/difference_merge_np, ops 3,4,5 the wrappers intersection/union/
@@ -97,6 +98,24 @@ class Runner:
 
     def arr(self, xs):
         return None if xs is None else self.np.array(xs, dtype=self.np.uint32)
+
+    def reform(self, a, form):
+        np = self.np
+        if a is None:
+            return None
+        if form == "strided":
+            big = np.full(len(a) * 2 + 2, 0xFFFFFFFF, dtype=np.uint32)
+            big[1:1 + 2 * len(a):2] = a
+            return big[1:1 + 2 * len(a):2]
+        if form == "column":
+            big = np.full((len(a), 3), 7, dtype=np.uint32)
+            big[:, 1] = a
+            return big[:, 1]
+        if form == "readonly":
+            b = a.copy()
+            b.setflags(write=False)
+            return b
+        return a
 
     def abstract(self, res):
         """tuple of ints (a 1-D uint32 array) | None | {"bad": ..}"""
@@ -190,6 +209,11 @@ class Runner:
                 out.append({"skipped": self.n - 1})
                 continue
             la, ra = self.arr(l), self.arr(r)
+            form = suite.get("form")
+            if form:
+                # same values in another FORM: a non-contiguous uint32 view (the kernels take strided memoryviews),
+                # or a read-only array (const memoryviews accept those)
+                la, ra = self.reform(la, form), self.reform(ra, form)
             out.append(self.explicit_entry(self.call_bin(op, la, ra, copy)))
             if (la is not None and la.tolist() != list(l)) or (ra is not None and ra.tolist() != list(r)):
                 self.mutated.append({"suite": suite.get("name"), "op": op, "l": l, "r": r,
